@@ -152,14 +152,27 @@ type client struct {
 // (a slow client in the middle of a query's result stream) until it is released.
 type sendGate struct {
 	id      string
-	hit     bool // under client.mu: the first ok was recorded and the sender is held
+	types   []string // reply types that close the gate (default: ok)
+	hit     bool     // under client.mu: the first such reply was recorded and the sender is held
 	release chan struct{}
+}
+
+func (g *sendGate) wants(t string) bool {
+	for _, x := range g.types {
+		if x == t {
+			return true
+		}
+	}
+	return false
 }
 
 // armGate installs a gate for the operation ID; the returned function opens it
 // (idempotent) and must always be called.
-func (c *client) armGate(id string) (g *sendGate, open func()) {
-	g = &sendGate{id: id, release: make(chan struct{})}
+func (c *client) armGate(id string, types ...string) (g *sendGate, open func()) {
+	if len(types) == 0 {
+		types = []string{"ok"}
+	}
+	g = &sendGate{id: id, types: types, release: make(chan struct{})}
 	c.mu.Lock()
 	c.gate = g
 	c.mu.Unlock()
@@ -207,7 +220,7 @@ func (c *client) onSend(data []byte) {
 		c.orphans = append(c.orphans, &r)
 	}
 	var hold *sendGate
-	if g := c.gate; g != nil && !g.hit && r.Type == "ok" && r.OpID == g.id {
+	if g := c.gate; g != nil && !g.hit && r.OpID == g.id && g.wants(r.Type) {
 		g.hit = true
 		hold = g
 	}
@@ -547,8 +560,8 @@ func handlerState(gs []gor) (parked int, active []gor) {
 		first := ""
 		for _, f := range append([]string{g.Created}, g.Frames...) {
 			if strings.Contains(f, apiRecv) || strings.Contains(f, ".queryExecutor") || strings.Contains(f, "database/storage/") && strings.Contains(f, ").Query") ||
-				strings.Contains(f, "main.(*seq).stepConcurrent.func") || strings.Contains(f, "main.(*seq).stepGated.func") ||
-				f == g.Created && (strings.Contains(f, "main.(*seq).stepConcurrent") || strings.Contains(f, "main.(*seq).stepGated")) {
+				strings.Contains(f, "main.(*seq).stepConcurrent.func") || strings.Contains(f, "main.(*seq).stepGated.func") || strings.Contains(f, "main.(*seq).stepSlowClient.func") ||
+				f == g.Created && (strings.Contains(f, "main.(*seq).stepConcurrent") || strings.Contains(f, "main.(*seq).stepGated") || strings.Contains(f, "main.(*seq).stepSlowClient")) {
 				rel = true
 			}
 			if first == "" && f != "" && f != g.Created && !strings.HasPrefix(f, "runtime.") {
@@ -664,6 +677,8 @@ func (e *env) analyse() (verdict string, detail map[string]any) {
 		}
 	}
 	pkgs := map[string]bool{}
+	chanSites := map[string]bool{}
+	var chanTexts []string
 	shown := map[string]bool{}
 	var texts, notBlocked []string
 	last := portbaseGoroutines(dumps[2])
@@ -697,6 +712,19 @@ func (e *env) analyse() (verdict string, detail map[string]any) {
 			allBlocked = false
 			notBlocked = append(notBlocked, st+" "+strings.Join(g.Frames[:min(3, len(g.Frames))], "<"))
 		}
+		if strings.HasPrefix(st, "chan send") {
+			for _, f := range g.Frames {
+				if i := strings.Index(f, "safing/portbase/"); i >= 0 {
+					chanSites[f[i+len("safing/portbase/"):]] = true
+					break
+				}
+			}
+			fs := strings.Join(g.Frames, "<")
+			if !shown[fs] && len(chanTexts) < 3 {
+				shown[fs] = true
+				chanTexts = append(chanTexts, clip(g.Text, 1800))
+			}
+		}
 		if lockState.MatchString(st) {
 			locks++
 			for _, f := range g.Frames {
@@ -726,8 +754,8 @@ func (e *env) analyse() (verdict string, detail map[string]any) {
 		where = append(where, p)
 	}
 	sort.Strings(where)
-	detail = map[string]any{"awaited": what, "lock_waiting_goroutines": locks, "packages": where, "goroutines": texts,
-		"same_stacks": same, "not_blocked": notBlocked}
+	detail = map[string]any{"awaited": what, "lock_waiting_goroutines": locks, "packages": where, "goroutines": append(chanTexts, texts...),
+		"same_stacks": same, "not_blocked": notBlocked, "blocked_on_channel_send_in": sortedKeys(chanSites)}
 	if same && allBlocked && locks > 0 {
 		return "wedged", detail
 	}
